@@ -235,15 +235,349 @@ func genChurn(r *hx.Rand, d *Desc) {
 	}
 }
 
+// ---------------------------------------------------------------- history shapes for mechanisms
+// that only show after a particular sequence (each is followed by listings that would differ)
+
+// distinctSeries returns n different series of measurement m, each with at least one tag.
+func distinctSeries(r *hx.Rand, m string, n int, seen map[string]bool) []Series {
+	var out []Series
+	for len(out) < n {
+		s := genSeries(r)
+		s.M = m
+		if len(s.Tags) == 0 {
+			s.Tags = [][2]string{{"host", uVals[r.Intn(len(uVals))]}}
+		}
+		if seen[s.Key()] {
+			if len(seen) > 150 {
+				s.Tags = append(s.Tags, [2]string{"zone", "z" + itoa(len(seen))})
+			} else {
+				continue
+			}
+		}
+		seen[s.Key()] = true
+		out = append(out, s)
+	}
+	return out
+}
+
+// probeQueries: listings of measurement m that go through the per-tag-value series sets, the
+// measurement series set and the shard's series id set, aimed at series a.
+func probeQueries(r *hx.Rand, d *Desc, m string, a Series, sh int) []Op {
+	var out []Op
+	q := func(x Query) { out = append(out, Op{Op: "query", Q: &x}) }
+	q(Query{Kind: "shseries", Sh: sh, M: m})
+	q(Query{Kind: "card"})
+	for _, kv := range a.Tags {
+		q(Query{Kind: "shseries", Sh: sh, M: m, Cond: &Pred{T: "eq", K: kv[0], V: kv[1]}})
+		switch r.Intn(4) {
+		case 0:
+			q(Query{Kind: "series", M: m, Cond: &Pred{T: "neq", K: kv[0], V: kv[1]}})
+		case 1:
+			q(Query{Kind: "shseries", Sh: sh, M: m, Cond: &Pred{T: "re", K: kv[0], V: "^" + kv[1] + "$"}})
+		case 2:
+			q(Query{Kind: "tagvals", M: m, K: kv[0]})
+		default:
+			q(Query{Kind: "shseries", Sh: sh, M: m, Cond: &Pred{T: "neq", K: kv[0], V: kv[1]}})
+		}
+	}
+	q(Query{Kind: "series", M: m, Cond: exactPred(a)})
+	if r.Chance(50) {
+		q(Query{Kind: "tagkeys", M: m})
+	}
+	if r.Chance(50) {
+		q(Query{Kind: "names", Cond: &Pred{T: "eq", K: a.Tags[0][0], V: a.Tags[0][1]}})
+	}
+	if r.Chance(35) {
+		out = append(out, convQueries(r, d, m, sh)...)
+	}
+	return out
+}
+
+// convQueries: the shard converted offline to a TSI index (buildtsi) must list the same series.
+func convQueries(r *hx.Rand, d *Desc, m string, sh int) []Op {
+	var out []Op
+	n := 1 + r.Intn(2)
+	for i := 0; i < n; i++ {
+		q := Query{Kind: "conv", Sh: sh, Bsz: []int{1, 1, 2, 3, 1000}[r.Intn(5)], Small: r.Chance(20), M: m}
+		if r.Chance(40) {
+			q.Cond = genLeaf(r)
+		}
+		if i > 0 {
+			q.Sh = 1 + r.Intn(d.NShards)
+		}
+		out = append(out, Op{Op: "query", Q: &q})
+	}
+	return out
+}
+
+// genReadd: a series is dropped from one shard while another shard still holds it (its id stays
+// alive in the series file), and written to the shard again while the same log file is active:
+// tombstone and re-insert of one id in one .tsl; then the log is swapped / compacted.
+func genReadd(r *hx.Rand, d *Desc) {
+	d.NShards = 2 + r.Intn(2)
+	d.LogSize = 1 << 20
+	if r.Chance(70) {
+		d.Cache = 0
+	}
+	m := uMeas[r.Intn(2)]
+	sh := 1 + r.Intn(d.NShards)
+	oth := sh%d.NShards + 1
+	seen := map[string]bool{}
+	ss := distinctSeries(r, m, 2+r.Intn(2), seen)
+	a := ss[0]
+	add := func(ops ...Op) { d.Ops = append(d.Ops, ops...) }
+	add(Op{Op: "write", Sh: sh, Series: ss})
+	add(Op{Op: "write", Sh: oth, Series: ss[:1+r.Intn(len(ss))]})
+	if r.Chance(35) {
+		add(Op{Op: "compact"})
+	}
+	rounds := 1 + r.Intn(2)
+	for k := 0; k < rounds; k++ {
+		switch r.Intn(3) {
+		case 0:
+			add(Op{Op: "delete", Shards: []int{sh}, From: []string{m}, Cond: exactPred(a)})
+		case 1:
+			add(Op{Op: "delete", Shards: []int{sh}, From: []string{m}, Cond: &Pred{T: "eq", K: a.Tags[0][0], V: a.Tags[0][1]}})
+		default:
+			add(Op{Op: "delete", Shards: []int{sh}, From: []string{m}})
+		}
+		if r.Chance(50) {
+			add(probeQueries(r, d, m, a, sh)[:2]...)
+		}
+		w := Op{Op: "write", Sh: sh, Series: []Series{a}}
+		if r.Chance(40) {
+			w.Series = append(w.Series, distinctSeries(r, m, 1, seen)...)
+		}
+		add(w)
+	}
+	if r.Chance(40) {
+		add(probeQueries(r, d, m, a, sh)...)
+	}
+	add(Op{Op: "compact"})
+	add(probeQueries(r, d, m, a, sh)...)
+	if r.Chance(60) {
+		add(Op{Op: "reopen"})
+		add(probeQueries(r, d, m, a, sh)...)
+	}
+	if r.Chance(50) {
+		add(Op{Op: "write", Sh: sh, Series: distinctSeries(r, m, 1, seen)}, Op{Op: "compact"})
+		add(probeQueries(r, d, m, a, sh)...)
+	}
+}
+
+// genLevels: a series sits in a level >= 2 index file, newer level-1 files exist, the series is
+// dropped from the shard (another shard keeps its id alive) and the tombstone, in the newest
+// level-1 file, is merged upwards; then a restart rebuilds the shard's series set from the files.
+func genLevels(r *hx.Rand, d *Desc) {
+	d.NShards = 2
+	d.LogSize = []int{1 << 20, 1 << 20, 1}[r.Intn(3)]
+	m := uMeas[r.Intn(2)]
+	sh := 1 + r.Intn(2)
+	oth := 3 - sh
+	seen := map[string]bool{}
+	a := distinctSeries(r, m, 1, seen)[0]
+	add := func(ops ...Op) { d.Ops = append(d.Ops, ops...) }
+	step := func(ss ...Series) {
+		add(Op{Op: "write", Sh: sh, Series: ss})
+		if d.LogSize > 1 {
+			add(Op{Op: "compact"})
+		}
+	}
+	add(Op{Op: "write", Sh: oth, Series: []Series{a}})
+	step(a)
+	for i, n := 0, 1+r.Intn(3); i < n; i++ { // a moves up the levels
+		step(distinctSeries(r, m, 1+r.Intn(2), seen)...)
+	}
+	for i, n := 0, r.Intn(3); i < n; i++ {
+		step(distinctSeries(r, m, 1, seen)...)
+	}
+	add(Op{Op: "delete", Shards: []int{sh}, From: []string{m}, Cond: exactPred(a)})
+	if d.LogSize > 1 {
+		add(Op{Op: "compact"})
+	}
+	add(probeQueries(r, d, m, a, sh)...)
+	for i, n := 0, r.Intn(3); i < n; i++ {
+		step(distinctSeries(r, m, 1, seen)...)
+	}
+	add(Op{Op: "reopen"})
+	add(probeQueries(r, d, m, a, sh)...)
+	if r.Chance(40) {
+		add(Op{Op: "delete", Shards: []int{oth}, From: []string{m}, Cond: exactPred(a)})
+		add(Op{Op: "query", Q: &Query{Kind: "sfile"}}, Op{Op: "query", Q: &Query{Kind: "series", M: m}})
+	}
+}
+
+// genSegRoll: the series file starts a new segment; tombstones (or nothing) go into it; after a
+// restart the next series id has to come from an older segment; new series are then created.
+func genSegRoll(r *hx.Rand, d *Desc) {
+	ms := []string{uMeas[r.Intn(2)], uMeas[2+r.Intn(2)]}
+	seen := map[string]bool{}
+	add := func(ops ...Op) { d.Ops = append(d.Ops, ops...) }
+	listings := func() {
+		for _, m := range ms {
+			add(Op{Op: "query", Q: &Query{Kind: "series", M: m}})
+		}
+		add(Op{Op: "query", Q: &Query{Kind: "sfile"}}, Op{Op: "query", Q: &Query{Kind: "card"}})
+		m := ms[r.Intn(2)]
+		add(Op{Op: "query", Q: &Query{Kind: "tagvals", M: m, K: "host"}})
+		add(Op{Op: "query", Q: &Query{Kind: "shseries", Sh: 1 + r.Intn(d.NShards), M: m, Cond: genOptPred(r)}})
+		if r.Chance(30) {
+			add(convQueries(r, d, m, 1+r.Intn(d.NShards))...)
+		}
+	}
+	old := append(distinctSeries(r, ms[0], 3+r.Intn(4), seen), distinctSeries(r, ms[1], 1+r.Intn(3), seen)...)
+	for i := 0; i < len(old); {
+		n := 1 + r.Intn(4)
+		if i+n > len(old) {
+			n = len(old) - i
+		}
+		add(Op{Op: "write", Sh: 1 + r.Intn(d.NShards), Series: old[i : i+n]})
+		i += n
+	}
+	if r.Chance(30) {
+		add(Op{Op: "sfcompact"})
+	}
+	add(Op{Op: "sfroll"})
+	all := make([]int, d.NShards)
+	for i := range all {
+		all[i] = i + 1
+	}
+	switch r.Intn(4) {
+	case 0:
+		add(Op{Op: "delete", Shards: all, From: []string{old[0].M}, Cond: exactPred(old[0])})
+	case 1:
+		add(Op{Op: "dropm", M: ms[1]})
+	case 2:
+		add(Op{Op: "delete", Shards: all, From: []string{ms[0]}, Cond: genLeaf(r)})
+	}
+	if r.Chance(20) {
+		add(Op{Op: "sfroll"})
+	}
+	if r.Chance(25) {
+		add(Op{Op: "sfcompact"})
+	}
+	if r.Chance(30) {
+		listings()
+	}
+	add(Op{Op: "reopen"})
+	fresh := append(distinctSeries(r, ms[0], 3+r.Intn(4), seen), distinctSeries(r, ms[1], 1+r.Intn(3), seen)...)
+	for i := 0; i < len(fresh); {
+		n := 1 + r.Intn(4)
+		if i+n > len(fresh) {
+			n = len(fresh) - i
+		}
+		add(Op{Op: "write", Sh: 1 + r.Intn(d.NShards), Series: fresh[i : i+n]})
+		i += n
+	}
+	listings()
+	if r.Chance(50) {
+		add(Op{Op: "reopen"})
+		listings()
+	}
+}
+
+// genShardDrop: a shard is deleted (retention): the series only it held leave the series file and
+// the database-wide in-memory index without an Index.Rebuild, while the measurement lives on
+// through series of other shards; then as many new series are created as were dropped (the
+// measurement's lazily sorted id list must not be taken for valid by its length), and listed.
+func genShardDrop(r *hx.Rand, d *Desc) {
+	d.NShards = 2 + r.Intn(2)
+	m := uMeas[r.Intn(2)]
+	sh := 1 + r.Intn(d.NShards)
+	oth := sh%d.NShards + 1
+	seen := map[string]bool{}
+	add := func(ops ...Op) { d.Ops = append(d.Ops, ops...) }
+	listings := func(full bool) {
+		add(Op{Op: "query", Q: &Query{Kind: "series", M: m}})
+		if !full {
+			return
+		}
+		add(Op{Op: "query", Q: &Query{Kind: "card"}}, Op{Op: "query", Q: &Query{Kind: "names"}})
+		add(Op{Op: "query", Q: &Query{Kind: "tagvals", M: m, K: uKeys[r.Intn(len(uKeys))]}})
+		add(Op{Op: "query", Q: &Query{Kind: "series", M: m, Cond: genLeaf(r)}})
+		add(Op{Op: "query", Q: &Query{Kind: "shseries", Sh: 1 + r.Intn(d.NShards), M: m}})
+		add(Op{Op: "query", Q: &Query{Kind: "tagkeys", M: m}})
+		if r.Chance(30) {
+			add(Op{Op: "query", Q: &Query{Kind: "sfile"}})
+		}
+	}
+	rounds := 1 + r.Intn(2)
+	stay := distinctSeries(r, m, 1+r.Intn(2), seen)
+	add(Op{Op: "write", Sh: oth, Series: stay})
+	for k := 0; k < rounds; k++ {
+		own := distinctSeries(r, m, 1+r.Intn(3), seen)
+		w := Op{Op: "write", Sh: sh, Series: own}
+		if r.Chance(40) {
+			w.Series = append(append([]Series{}, own...), stay[0])
+		}
+		if r.Chance(30) {
+			w.Series = append(append([]Series{}, w.Series...), mkS(uMeas[2], "host", "a"))
+		}
+		add(w)
+		if r.Chance(25) {
+			add(Op{Op: "snapshot", Sh: sh})
+		}
+		listings(true)
+		add(Op{Op: "dropshard", Sh: sh})
+		if r.Chance(30) {
+			listings(r.Chance(50))
+		}
+		nnew := len(own)
+		if r.Chance(25) {
+			nnew = 1 + r.Intn(3)
+		}
+		fresh := distinctSeries(r, m, nnew, seen)
+		target := sh
+		if r.Chance(40) {
+			target = oth
+		}
+		if nnew > 1 && r.Chance(40) { // two writes, nothing listed in between
+			add(Op{Op: "write", Sh: target, Series: fresh[:1]}, Op{Op: "write", Sh: sh, Series: fresh[1:]})
+		} else {
+			add(Op{Op: "write", Sh: target, Series: fresh})
+		}
+		listings(true)
+		if r.Chance(30) {
+			add(Op{Op: "delete", Shards: []int{oth}, From: []string{m}, Cond: exactPred(stay[0])})
+			listings(true)
+		}
+	}
+	if r.Chance(30) {
+		add(Op{Op: "reopen"})
+		listings(true)
+	}
+}
+
 func genHistory(r *hx.Rand, tier string) *Desc {
 	d := &Desc{NShards: 1 + r.Intn(2), PartN: []int{1, 1, 2, 8}[r.Intn(4)], LogSize: []int{1, 1, 200, 1 << 20}[r.Intn(4)],
 		SfThresh: []int{0, 1, 2, 4}[r.Intn(4)], Cache: []int{0, 100}[r.Intn(2)]}
 	if r.Chance(10) {
 		d.NShards = 3
 	}
-	if r.Chance(35) {
+	switch x := r.Intn(100); {
+	case x < 30:
 		genChurn(r, d)
 		if r.Chance(50) {
+			return d
+		}
+	case x < 40:
+		genReadd(r, d)
+		if r.Chance(60) {
+			return d
+		}
+	case x < 48:
+		genLevels(r, d)
+		if r.Chance(60) {
+			return d
+		}
+	case x < 57:
+		genSegRoll(r, d)
+		if r.Chance(60) {
+			return d
+		}
+	case x < 67:
+		genShardDrop(r, d)
+		if r.Chance(60) {
 			return d
 		}
 	}
@@ -279,12 +613,16 @@ func genHistory(r *hx.Rand, tier string) *Desc {
 				op.From = []string{}
 			}
 			d.Ops = append(d.Ops, op)
-		case x < 66:
+		case x < 63:
 			d.Ops = append(d.Ops, Op{Op: "dropm", M: uMeas[r.Intn(len(uMeas))]})
+		case x < 66:
+			d.Ops = append(d.Ops, Op{Op: "dropshard", Sh: 1 + r.Intn(d.NShards)})
 		case x < 78:
 			d.Ops = append(d.Ops, Op{Op: "compact"})
-		case x < 84:
+		case x < 82:
 			d.Ops = append(d.Ops, Op{Op: "sfcompact"})
+		case x < 85:
+			d.Ops = append(d.Ops, Op{Op: "sfroll"})
 		case x < 90:
 			d.Ops = append(d.Ops, Op{Op: "snapshot", Sh: 1 + r.Intn(d.NShards)})
 		default:
@@ -299,6 +637,9 @@ func genHistory(r *hx.Rand, tier string) *Desc {
 	nq := 2 + r.Intn(3)
 	for j := 0; j < nq; j++ {
 		d.Ops = append(d.Ops, Op{Op: "query", Q: genQuery(r, d)})
+	}
+	if r.Chance(30) {
+		d.Ops = append(d.Ops, convQueries(r, d, uMeas[r.Intn(2)], 1+r.Intn(d.NShards))...)
 	}
 	return d
 }
@@ -394,6 +735,8 @@ func (r *RefState) apply(op *Op) {
 				}
 			}
 		}
+	case "dropshard":
+		r.shards[op.Sh-1] = map[string]Series{}
 	case "dropm":
 		for _, m := range r.shards {
 			for k, s := range m {
@@ -524,7 +867,7 @@ func (r *RefState) observe(q *Query) Obs {
 			}
 			o.Rows = append(o.Rows, row)
 		}
-	case "shseries":
+	case "shseries", "conv":
 		for _, s := range r.shards[q.Sh-1] {
 			if s.M != q.M || !evalPred(q.Cond, s) {
 				continue
@@ -651,5 +994,64 @@ func designed() []*Desc {
 		add(2, pn, ls, sft, ch, w(1, ca, cb, ma), one(Op{Op: "snapshot", Sh: 1}), w(2, ca), del([]int{1, 2}, []string{"cpu"}, &Pred{T: "neq", K: "host", V: "b"}),
 			battery(2, "cpu"), reopen, battery(2, "cpu"))
 	}
+	conv := func(sh, bsz int, small bool, m string, c *Pred) []Op {
+		return one(Op{Op: "query", Q: &Query{Kind: "conv", Sh: sh, Bsz: bsz, Small: small, M: m, Cond: c}})
+	}
+	sfroll := one(Op{Op: "sfroll"})
+	for _, ch := range []int{0, 100} {
+		// tombstone and re-insert of one series id in one log file (another shard keeps the id alive),
+		// then the log file is swapped and compacted: the re-created series under tag predicates
+		add(2, 1, 1<<20, 0, ch, w(1, ca, cb), w(2, ca), del([]int{1}, []string{"cpu"}, &Pred{T: "eq", K: "host", V: "a"}), w(1, ca),
+			battery(2, "cpu"), compact, battery(2, "cpu"), reopen, battery(2, "cpu"), w(1, cc), compact, battery(2, "cpu"))
+		// the same with the first insert already in an index file, two rounds, 8 partitions
+		add(2, 8, 1<<20, 0, ch, w(2, ca, cb), w(1, ca, cb, cc), compact, del([]int{1}, []string{"cpu"}, nil), w(1, ca),
+			del([]int{1}, []string{"cpu"}, exactPred(ca)), w(1, ca, cb), compact, battery(2, "cpu"), reopen, battery(2, "cpu"))
+	}
+	// a tombstone merged upwards while its target sits in an older, higher-level file; restart
+	for _, ls := range []int{1 << 20, 1} {
+		c := compact
+		if ls == 1 {
+			c = nil
+		}
+		add(2, 1, ls, 0, 0, w(2, ca), w(1, ca), c, w(1, cb), c, w(1, cc), c, del([]int{1}, []string{"cpu"}, exactPred(ca)), c,
+			battery(2, "cpu"), reopen, battery(2, "cpu"), w(1, mkS("cpu", "host", "d")), c, w(1, mkS("cpu", "host", "e")), c, reopen, battery(2, "cpu"),
+			del([]int{2}, []string{"cpu"}, exactPred(ca)), battery(2, "cpu"))
+		add(2, 1, ls, 0, 0, w(2, ca, cb), w(1, ca), c, w(1, cb), c, w(1, cc), c, w(1, ma), c, w(1, mkS("cpu", "host", "d")), c,
+			del([]int{1}, []string{"cpu"}, &Pred{T: "re", K: "host", V: "^(a|b)$"}), c, reopen, battery(2, "cpu"), w(1, mkS("cpu", "host", "e")), c, reopen, battery(2, "cpu"))
+	}
+	// series-file segment roll-over: the active segment holds only tombstones / nothing at the restart,
+	// then new series are created (they must get fresh ids)
+	{
+		var olds, news []Series
+		for i, v := range []string{"a", "b", "c", "d", "e", "f", "g", "h", "i", "j", "k", "l"} {
+			s := mkS("cpu", "host", v)
+			if i%3 == 2 {
+				s = mkS("mem", "host", v, "region", "x")
+			}
+			olds = append(olds, s)
+			news = append(news, mkS(s.M, "host", v+"2", "dc", "y"))
+		}
+		add(1, 1, 1<<20, 0, 0, w(1, olds...), sfroll, del([]int{1}, []string{"cpu"}, exactPred(olds[0])), reopen, w(1, news...), battery(1, "cpu", "mem"),
+			reopen, battery(1, "cpu", "mem"))
+		add(2, 8, 1, 2, 100, w(1, olds[:6]...), w(2, olds[4:]...), sfc, sfroll, reopen, w(2, news[:5]...), w(1, news[5:]...), battery(2, "cpu", "mem"),
+			sfroll, sfroll, one(Op{Op: "dropm", M: "mem"}), sfc, reopen, w(1, mkS("mem", "host", "zz"), mkS("cpu", "host", "zz")), battery(2, "cpu", "mem"))
+	}
+	// a shard is deleted: its own series leave the series file and the database-wide in-memory index (no Rebuild);
+	// the measurement lives on in another shard; the same number of new series is created, then listed
+	{
+		ds := func(sh int) []Op { return one(Op{Op: "dropshard", Sh: sh}) }
+		cd, ce, cf := mkS("cpu", "host", "d"), mkS("cpu", "host", "e", "region", "y"), mkS("cpu", "dc", "z")
+		for _, cfg := range [][4]int{{1, 1 << 20, 0, 0}, {8, 1, 1, 100}} {
+			pn, ls, sft, ch := cfg[0], cfg[1], cfg[2], cfg[3]
+			add(2, pn, ls, sft, ch, w(1, ca, cb), w(2, cc), battery(2, "cpu"), ds(1), w(1, cd, ce), battery(2, "cpu"), reopen, battery(2, "cpu"))
+			add(2, pn, ls, sft, ch, w(1, ca, cb, cc, ma), w(2, cc), battery(2, "cpu"), ds(1), w(2, cd), w(1, ce), battery(2, "cpu"),
+				ds(2), battery(2, "cpu", "mem"), w(2, cf, ca), battery(2, "cpu"), ds(1), ds(2), battery(2, "cpu"), w(1, ca), battery(2, "cpu"))
+		}
+	}
+	// offline conversion to TSI (buildtsi): log entries buffered (DisableFsync) until Close
+	add(2, 1, 1<<20, 0, 0, w(1, ca, cb, ma), w(2, cc), conv(1, 1000, false, "cpu", nil), conv(1, 1, false, "cpu", nil), conv(1, 2, false, "mem", nil),
+		conv(2, 1, true, "cpu", nil), one(Op{Op: "snapshot", Sh: 1}), w(1, cc), del([]int{1}, []string{"cpu"}, exactPred(ca)),
+		conv(1, 1000, false, "cpu", nil), conv(1, 2, false, "cpu", &Pred{T: "re", K: "host", V: "^(a|b)$"}), conv(1, 1, true, "cpu", nil),
+		reopen, conv(1, 3, false, "cpu", &Pred{T: "neq", K: "host", V: "c"}), one(Op{Op: "dropm", M: "cpu"}), conv(1, 1000, false, "cpu", nil), conv(1, 1, false, "mem", nil))
 	return out
 }
